@@ -1149,12 +1149,19 @@ class Walker(object):
             st.pop((fid, i), None)
         return fr, rv
 
-    def run(self, fn, args, genv=None, state=None):
-        """Explore all paths of fn(args) from state; returns list of PathResult."""
+    def run(self, fn, args, genv=None, state=None, start_block=None):
+        """Explore all paths of fn(args) from state; returns list of PathResult.
+        start_block: analyse the suffix of fn from that basic block with every local holding an arbitrary value of
+        its type (an over-approximation of every state in which the block can be reached)."""
         if state is None:
             state = self.new_state()
         base_depth = len(state.frames)
-        self.push_frame(state, fn, genv or {}, args, None, None)
+        fr0 = self.push_frame(state, fn, genv or {}, args, None, None)
+        if start_block is not None:
+            fr0.block = start_block
+            for i, loc in enumerate(fn.body["locals"]):
+                ty = subst_ty(fn.T[loc["ty"]] if isinstance(loc, dict) and "ty" in loc else fn.T[loc], fr0.genv)
+                state.store[(fr0.fid, i)] = self.symval("cut.L%d" % i, ty)
         results = []
         work = [state]
         npaths = 0
